@@ -261,6 +261,39 @@ def rule_r7_plain(ctx, prog, rule="R7"):
                                     ok = ok or tried
                                     continue
                             other_use = callee_name(ct)
+                if not ok and other_use is None:
+                    # match form: `match a.partial_cmp(b) { None => return Err(UndefinedOrder), Some(..) => … }` – the None arm of a
+                    # switch on the result's discriminant leads only to returns of Err(UndefinedOrder)
+                    for sbb in b.live_blocks():
+                        st = b.term(sbb)
+                        if st["k"] != "switch":
+                            continue
+                        de = strip(b.switch_discr_expr(sbb))
+                        if not (isinstance(de, tuple) and de[0] == "discr" and strip(de[1]) == me):
+                            continue
+                        none_tgt = [tgt for v, tgt in st["arms"] if v == 0]
+                        if not none_tgt and st["otherwise"] is not None and all(v != 0 for v, _ in st["arms"]):
+                            none_tgt = [st["otherwise"]]
+                        if len(none_tgt) != 1:
+                            continue
+                        # every definition of the return place reachable first from the None arm is Err(UndefinedOrder)
+                        seen, stack, rets = set(), [none_tgt[0]], []
+                        while stack:
+                            x = stack.pop()
+                            if x in seen or x == sbb:
+                                continue
+                            seen.add(x)
+                            found = False
+                            for si, s_ in enumerate(b.blocks[x]["stmts"]):
+                                if s_["k"] == "assign" and s_["dst"]["l"] == 0 and not s_["dst"]["p"]:
+                                    rets.append(strip(b.rvalue_expr(s_["rv"], x, si)))
+                                    found = True
+                                    break
+                            if not found:
+                                stack.extend(b.succ(x))
+                        ok = bool(rets) and all(isinstance(r_, tuple) and r_[0] == "agg" and r_[2] == "Err" and
+                                                isinstance(strip(r_[3][0]), tuple) and strip(r_[3][0])[0] == "agg" and strip(r_[3][0])[2] == "UndefinedOrder"
+                                                for r_ in rets)
                 ctx.ob(rule, key, ok and other_use is None, b.where(bb, "term"),
                        "partial_cmp(..).ok_or(UndefinedOrder)? – an unordered pair is reported" if ok and other_use is None else
                        "the result of partial_cmp is not turned into UndefinedOrder by `.ok_or(UndefinedOrder)?` (used by `%s`)" % other_use,
